@@ -255,7 +255,7 @@ func runC09(c C09Case) *Result {
 			if st.Op == "verify" {
 				err = in.M.Verify(cloneHashes(hs), cloneProof(proof), true)
 			} else if st.Op == "vpp" {
-				err = vppRemember(in.M, vw, proof.Targets, hs)
+				err = vppRemember(in.M, &in.ar, vw, proof.Targets, hs)
 			} else {
 				err = in.M.Ingest(cloneHashes(hs), cloneProof(proof))
 				special = special || sawDelBlock
